@@ -306,7 +306,7 @@ func (g *Gen) heapGet(st *State, name string) string {
 		if g.immutableHeap(name) {
 			// immutable package-level error value: never nil, distinct from every other such constant and from dynamic errors
 			g.assume(app("<", sym, "0"))
-			for other := range g.declared {
+			for _, other := range sortedKeysB(g.declared) {
 				if strings.HasPrefix(other, "cgsym:") && other != "cgsym:"+sym {
 					g.assume(sNot(app("=", sym, strings.TrimPrefix(other, "cgsym:"))))
 				}
@@ -397,7 +397,7 @@ func (g *Gen) havocAll(st *State) {
 		}
 	}
 	// kept heaps never mentioned yet keep their current symbol: materialise them first
-	for k := range g.heapSorts {
+	for _, k := range sortedKeysS(g.heapSorts) {
 		if g.keepHeap(k) {
 			if _, ok := ghosts[k]; !ok {
 				ghosts[k] = g.heapGet(st, k)
@@ -701,6 +701,25 @@ func (o *Oblig) Script(models bool) string {
 
 func sortedKeys(m map[string]string) []string {
 	var ks []string
+	for k := range m {
+		ks = append(ks, k)
+	}
+	sort.Strings(ks)
+	return ks
+}
+
+// deterministic iteration orders: the generated scripts (and the fresh-name numbering in them) must not depend on Go's map order
+func sortedKeysB(m map[string]bool) []string {
+	ks := make([]string, 0, len(m))
+	for k := range m {
+		ks = append(ks, k)
+	}
+	sort.Strings(ks)
+	return ks
+}
+
+func sortedKeysS(m map[string]string) []string {
+	ks := make([]string, 0, len(m))
 	for k := range m {
 		ks = append(ks, k)
 	}
